@@ -146,7 +146,7 @@ class MacroGen:
     def __init__(self, rng, uid, knobs=None):
         self.rng = rng
         self.uid = uid
-        self.k = dict(unhyg=0.6, free=0.12, leak=0.12, capture=0.0, shadow_init=0.0, ctx=None)
+        self.k = dict(unhyg=0.6, free=0.12, leak=0.12, capture=0.0, shadow_init=0.0, ctx=None, let=0.25, single=0.15)
         self.k.update(knobs or {})
 
     # ---- bodies
@@ -263,9 +263,23 @@ class MacroGen:
             for a in c["args"]:
                 self.arg_names |= names_of_arg(a)
         self.declared_here = [set()]
-        body = self.stmts({}, nparams, 0, rng.randint(2, 6))
-        if rng.random() < 0.5:
-            body.append(["result", self.expr(scope_after(body), nparams)])
+        single = rng.random() < self.k["single"]
+        body = [] if single else self.stmts({}, nparams, 0, rng.randint(2, 6))
+        if single or rng.random() < 0.5:
+            sc = scope_after(body)
+            if single or rng.random() < self.k["let"]:
+                # a local bound inside an expression: `(x := e1) + e2` (with `single`, the whole expansion is this one expression)
+                name = self.pick_new_name(sc)
+                if sc.get(name) in ("val", "clos", "var") or name in self.declared_here[-1] and sc.get(name) != ":=":
+                    name = "u"
+                if sc.get(name) in ("val", "clos", "var"):
+                    body.append(["result", self.expr(sc, nparams)])
+                else:
+                    sc2 = dict(sc)
+                    sc2[name] = ":="
+                    body.append(["result", ["let", name, self.rhs(name, sc, nparams), self.expr(sc2, nparams)]])
+            else:
+                body.append(["result", self.expr(sc, nparams)])
         leak = rng.random() < self.k["leak"]
         return {"uid": self.uid, "nparams": nparams, "body": body, "ctx": ctxk, "decls": decls, "calls": calls,
                 "leak_probe": MACRO_ONLY if leak else None}
@@ -304,6 +318,8 @@ def analyse(prog):
             return reads(e[1]) | reads(e[2])
         if e[0] == "usplice":
             return {"@" + n for n in argn[e[1]]}
+        if e[0] == "let":
+            return reads(e[2]) | reads(e[3])
         return set()
     argn = [set().union(*[names_of_arg(c["args"][i]) for c in prog["calls"]]) if prog["calls"] else set()
             for i in range(prog["nparams"])]
@@ -323,6 +339,14 @@ def analyse(prog):
                     capture.append(n)
         elif e[0] == "hsplice":
             pass
+        elif e[0] == "let":
+            ex(e[2], scopes)
+            rd = reads(e[2])
+            if (e[1] in rd or ("@" + e[1]) in rd) and e[1] not in scopes[-1]:
+                shadow.append(e[1])
+            scopes[-1].add(e[1])
+            locs.add(e[1])
+            ex(e[3], scopes)
 
     def st(stmts, scopes):
         scopes = scopes + [set()]
@@ -377,6 +401,8 @@ def p_expr(e, ren):
         return "!{unhygienic(p%d)}" % e[1]
     if e[0] == "hsplice":
         return "!{p%d}" % e[1]
+    if e[0] == "let":
+        return f"({ren(e[1])} := {p_expr(e[2], ren)}) + {p_expr(e[3], ren)}"
     raise ValueError(e)
 
 
@@ -687,6 +713,10 @@ def variants(prog):
         if e[0] == "add":
             yield e[1]
             yield e[2]
+        if e[0] == "let":
+            yield e[2]
+            yield ["let", e[1], ["int", 1], e[3]]
+            yield ["let", e[1], e[2], ["var", e[1]]]
         if e[0] != "int":
             yield ["int", 1]
 
@@ -718,6 +748,8 @@ def rename_macro_local(prog, old, new):
             return [e[0], new]
         if e[0] == "add":
             return ["add", ex(e[1]), ex(e[2])]
+        if e[0] == "let":
+            return ["let", new if e[1] == old else e[1], ex(e[2]), ex(e[3])]
         return e
 
     def st(stmts):
@@ -785,6 +817,8 @@ def canonical(prog):
             return ["int", 1]
         if e[0] == "add":
             return ["add", ex(e[1]), ex(e[2])]
+        if e[0] == "let":
+            return ["let", e[1], ex(e[2]), ex(e[3])]
         return e
 
     def st(stmts):
